@@ -259,6 +259,9 @@ def get_pool(jobs):
     and torch/fggs are imported so that the workers inherit them."""
     global _POOL
     if _POOL is None:
+        import gc
+        gc.collect()
+        gc.freeze()     # keep the GC from touching (and so copying) the parent's pages in every child
         _POOL = mp.get_context('fork').Pool(jobs, initializer=_init_worker)
     return _POOL
 
